@@ -9,6 +9,7 @@ lost/torn in-flight writes, silent write faults.  Images on which e2fsck -fn com
 nothing and are only counted.
 """
 import hashlib
+import re
 
 import refext4
 from framework import Check, Outcome, main
@@ -81,6 +82,14 @@ class C02(Check):
             t = c.rule
             if c.rule.startswith("R1") and "inode 7" in c.detail:
                 t += "(resize_inode)"
+            if c.rule == "R4.i_blocks":
+                m = re.match(r"inode (\d+):", c.detail)
+                try:
+                    i = fs.read_inode(int(m.group(1))) if m else None
+                    if i is not None and (i.mode & 0xF000) == 0xA000 and (i.flags & 0x10000000):
+                        t += "(inline_symlink)"
+                except Exception:
+                    pass
             return t
         rules = sorted(set(tag(c) for c in comp))
         if "bigalloc" in st["cfg"]["features"]:
